@@ -16,5 +16,5 @@ echo "$name: suite: $suite ; checks that raised an alarm ($tier):${fired:- none}
 python3 - "$name" "$suite" "$fired" "$tier" <<'PY'
 import json,sys
 name,suite,fired,tier=sys.argv[1:5]
-json.dump({"name":name,"kind":"behaviour-preserving refactor","suite_with_change":suite,"tier":tier,"checks_that_raised_an_alarm":fired.split()},open(f"/verif/seeded/refactors/{name}/meta.json","w"),indent=1)
+json.dump({"name":name,"kind":"behaviour-preserving refactor","suite_with_change":suite,"tier":tier,"checks_that_raised_an_alarm":fired.split()},open(f"/verif/seeded/refactors/{name}/meta_{tier}.json","w"),indent=1)
 PY
